@@ -150,3 +150,13 @@ def run(ctx, R):
     R.floor("r1", "audited keys for the frontend", len(panic_audit.C10), 80)
     guards(C, R)
     semantic_validity(C, R)
+    # audit entries of class INVARIANT name C11 clauses (tag handler / id generators / indexer): re-evaluate them here, a
+    # failing clause re-opens the panic sites that rely on it
+    from tfv.core import Report
+    from . import C11
+    R11 = Report("C11", ctx.tier, 0)
+    C11.run(ctx, R11)
+    bad = [v for v in R11.violations if v["rule"] in ("r2", "r3", "r4")]
+    R.check(not bad, "r2", "G-INVARIANTS(C11 r2-r4)", "-",
+            "a C11 clause the panic audit relies on is broken: %s - assertions / unwraps in the tag handler and the indexer that are "
+            "audited as INVARIANT can fire on query text" % [v["key"] for v in bad][:3], {"c11_instances": len(R11.instances)})
